@@ -287,6 +287,16 @@ def resume_attempt(ctx, rng, servers, stored, W, r):
     elif change == "lower_version" and ver > (3, 0) and ver < (3, 4):
         ckw["maxVersion"] = (3, ver[1] - 1)
         inconsistent = "version"
+        if ckw["maxVersion"] == (3, 0) and mech == "ticket12":
+            # an SSLv3 ClientHello has no extensions: the ticket cannot be
+            # offered, what goes out is the session ID (if the session has
+            # one the server's cache may know it)
+            if not s2.sessionID:
+                ctx.count("nothing_to_offer")
+                return
+            mech = "id"
+            if tamper in ("flip_ticket", "trunc_ticket"):
+                tampered = False
     if getattr(r, "cipher_names", None):
         # the session came from a connection with a restricted offer: keep
         # offering the same, or the server may legitimately prefer a suite
